@@ -189,13 +189,14 @@ let do_script h =
   end
 
 (* ---------------------------------------------------------------- btcc *)
-let no_exec _ _ = None
+let no_exec = do_exec
 let do_btcc h =
   let id = get h "id" "" in
   let toks = List.map (fun t -> ascii (unhexstr t)) (split ',' (get h "toks" "")) in
   match btcc no_exec toks with
   | POk b -> Printf.printf "R %s out=%s\n" id (hexitem b)
   | PExit1 -> Printf.printf "R %s exit1\n" id
+  | PAbort -> Printf.printf "R %s CRASH\n" id
 
 (* ---------------------------------------------------------------- transactions *)
 let rev_hex (l : z list) = hex (List.rev l)
@@ -231,6 +232,30 @@ let do_tx h =
            | Some (i, n) -> line ^ Printf.sprintf " sel=%s:%s intxid=%s" (string_of_z i) (string_of_z n) (rev_hex txid)) in
     print_string (line ^ "\n")
 
+(* ---------------------------------------------------------------- transforms *)
+let value_desc (v : value) = match v with
+  | VInt i -> "t=int v=" ^ string_of_z i
+  | VOpcode o -> "t=op v=" ^ string_of_z o
+  | VData d -> "t=data v=" ^ hexitem d
+  | VString s -> "t=str v=" ^ hexitem s
+  | VFun (_, _, w) -> "t=str v=" ^ hexitem w
+let do_inl h =
+  let id = get h "id" "" in
+  match value_of_string do_exec (ascii (unhexstr (get h "expr" ""))) with
+  | POk v -> Printf.printf "R %s %s\n" id (value_desc v)
+  | PExit1 -> Printf.printf "R %s exit1\n" id
+  | PAbort -> Printf.printf "R %s CRASH\n" id
+let do_tf h =
+  let id = get h "id" "" in
+  let args = List.map (fun t -> ascii (unhexstr t)) (split ',' (get h "args" "")) in
+  match tf_run (ascii (unhexstr (get h "name" ""))) args with
+  | TfText s -> Printf.printf "R %s rv=0 out=%s\n" id (hexitem s)
+  | TfUnknown -> Printf.printf "R %s rv=-1 out=%s\n" id (hexitem (ascii ("unknown function: " ^ unhexstr (get h "name" "") ^ "\n")))
+  | TfExit1 -> Printf.printf "R %s exit1\n" id
+  | TfExn -> Printf.printf "R %s rv=-1 out=-\n" id
+  | TfCrash -> Printf.printf "R %s CRASH\n" id
+  | TfUnmodelled -> Printf.printf "R %s unmodelled\n" id
+
 let run_case (l : string) =
   let (kind, h) = parse_line l in
   match kind with
@@ -240,6 +265,8 @@ let run_case (l : string) =
   | "script" -> do_script h
   | "btcc" -> do_btcc h
   | "tx" -> do_tx h
+  | "inl" -> do_inl h
+  | "tf" -> do_tf h
   | _ -> Printf.printf "R %s unknownkind\n" (get h "id" "")
 
 let () =
